@@ -125,6 +125,21 @@ CHECKS["C13"] = {
             "characters with the scanner's macros. Does not decide equality with the abstract document model over operation histories.",
     "note": "the descriptor grammar itself is not modelled",
 }
+CHECKS["C17"] = {
+    "technique": "static sibling agreement of the ten vnacal_new_add_* entry points (argument-structure fields), through==line literal check, paired port-map look-ups, ordered-chain agreement",
+    "text": "Decides only the funnel clause: the a/b and m forms of each standard fill the common argument structure identically apart from the measurement fields, "
+            "through is line with the literal {{0,1},{1,0}} matrix and the same flags and port map, all ten entry points end in _vnacal_new_add_common, the row and "
+            "column of a mapped cell are looked up through the same port map, and the parameter hash keeps the chain order its readers rely on (so the order of "
+            "adding standards cannot hide a parameter). Does not decide any numerical metamorphic relation.",
+    "note": "field comparison is textual on the S-side fields, whose parameter names are shared by the two forms",
+}
+CHECKS["C18"] = {
+    "technique": "static index-space analysis of per-equation vectors across the system loop, typestate pairing of spline coefficient buffers, vector-dereference lint",
+    "text": "Decides that the per-equation weight vector is written and read with counters that run across all column systems (multi-system types), that every spline "
+            "evaluation of a noise vector uses coefficients computed for that same vector on every path, and that the per-frequency error-model vector is "
+            "subscripted rather than dereferenced as one object. Does not decide any statistical rate or the p-value arithmetic.",
+    "note": "system loops are recognised by a bound depending on vn_systems; per-equation vectors by an allocation depending on vn_equations",
+}
 NOT_APPLICABLE = {
     "C14": "YAML fidelity of arbitrary scalars/keys depends on libyaml's emitter/scanner behaviour on run-time strings; no clause is visible in libvna's source shape (DESIGN.md section 3, C14)",
 }
